@@ -29,9 +29,9 @@ the identity; the hierarchical figures are C01's subject and compared here by th
 Quirks kept as written:
   * the pod cache of a QuotaInfo keeps the first object it saw; migrateDefaultQuotaGroupsPod resolves the
     quota from THAT object and MigratePod moves ITS request.
-  * MigratePod subtracts the request from `out` whether or not `out` caches the pod, adds the request to
-    `in` whether or not `in` already cached it (addPodIfNotPresent is a no-op then), and adds used to
-    `in` whenever the pod ends up assigned there.
+  * MigratePod subtracts the request from `out` whether or not `out` caches the pod; since fix 5a63beb it
+    returns after that when `in` already caches the pod (the assigned flag of `out` is then NOT carried over).
+  * OnPodDelete resolves the quota NOW; since fix 931f7a3 the default group is cleared as well.
   * OnPodUpdate with old and new resolving to the same quota that does not cache the pod adds it
     ("pod creation before quota creation") without looking at any other quota.
   * a pod that turns terminated keeps its assigned flag and its used (only OnPodAdd / the not-yet-assigned
@@ -160,6 +160,8 @@ def mgrMigrate (s : St) (p : PodObj) (out inn : Nat) : St :=
   let s := reqD s out (- p.req)
   let s := if asg then usedD s out (- p.req) else s
   let s := delE s out p.id
+  -- fix 5a63beb: a pod event already filed the pod under `in`: nothing is added (and the flag is not carried over)
+  if hasE s inn p.id then s else
   let s := addE s inn p
   let s := setAsg s inn p.id asg
   let s := reqD s inn p.req
@@ -177,7 +179,11 @@ def onPodAdd (s : St) (p : PodObj) : St := mgrPodAdd s (resolve s p) p
 def onPodUpdate (s : St) (old new : PodObj) : St :=
   if old.rv = new.rv then s else mgrPodUpdate s (resolve s new) (resolve s old) new old
 
-def onPodDelete (s : St) (p : PodObj) : St := mgrPodDelete s (resolve s p) p
+/-- pod_handler.go handlePodDelete (fix 931f7a3: the default group is cleared as well) -/
+def onPodDelete (s : St) (p : PodObj) : St :=
+  let q := resolve s p
+  let s := mgrPodDelete s q p
+  if q ≠ dflt then mgrPodDelete s dflt p else s
 
 def reserve (s : St) (p : PodObj) : St := mgrReserve s (resolve s p) p
 def unreserve (s : St) (p : PodObj) : St := mgrUnreserve s (resolve s p) p
